@@ -199,6 +199,11 @@ def check_case(case):
         if case.get("dup_goal") and p["goal_lits"]:
             # a goal fact written twice in one agent's own file: the combination still lists it once
             p = dict(p, goal_lits=list(p["goal_lits"]) + [list(p["goal_lits"][0])])
+        if case.get("obj_decl") is not None:
+            # the agent's object list written in a drawn legal way (grouped, bare names of the root type at the end
+            # of the public list, a :private block)
+            from pv.chooser import RChooser
+            p = dict(p, object_decl=P.object_decl(RChooser(f"{case['obj_decl']}/{i}"), [list(o) for o in p["objects"]], True))
         with open(d / f"problem-agent{i}.pddl", "w") as fh:
             fh.write(sexpr.flat(P.problem_tree(dom, p)))
     if case.get("decoys"):
@@ -367,8 +372,12 @@ def gen(ch, tier):
         ag["types"] = sorted({t for _, t in part["objects"] if t != "object"})
         ag["extra"] = sorted(set(ag["extra"]))
         ag["consts"] = sorted(set(ag["consts"]))
-    return {"dom": dom, "problem": pr, "agents": agents, "assignment": assignment, "dummy": ch.flag(0.3), "reuse": ch.flag(0.5), "decoys": ch.flag(0.5), "dup_goal": ch.flag(0.3),
+    case = {"dom": dom, "problem": pr, "agents": agents, "assignment": assignment, "dummy": ch.flag(0.3), "reuse": ch.flag(0.5), "decoys": ch.flag(0.5), "dup_goal": ch.flag(0.3),
             "perm": [ch.int(0, 23)]}
+    side = ch.side("obj-decl")
+    if side.flag(0.5):
+        case["obj_decl"] = side.int(0, 10 ** 6)
+    return case
 
 
 def plan(tier):
